@@ -107,7 +107,7 @@ CLAIMS = {
     "C12": {
         "text": "Kernel-checked for every user model: statistics exist only for N > M+P with dof = N-M-P (c12_ok_dof), N <= M+P always yields an error (c12_underdetermined), weighted residuals = Yw - (W Phi) c, the cached residual expression (c12_residuals), "
                 "chi2 = |r|^2/dof (c12_chi2), standard error^2 = chi2 >= 0 (c12_stderr); on the usize shape model the degrees-of-freedom computation never panics in either build profile (Shape.c12_no_panic) while the pre-fix order provably panicked (Shape.c12_prefix_panics, decide); "
-                "fit_with_statistics = Err(fit result) iff fit failed / no coefficients / statistics erred (C04.c04_fws). Tie: statistics stream in both build profiles.",
+                "fit_with_statistics = Err(fit result) iff fit failed / no coefficients / statistics erred (C04.c04_fws). Tie: statistics stream in both build profiles. END TO END (Props/C12E2E.lean): fit_with_statistics instantiated on varpro's own problem (fitWithStats); whenever it returns Ok((result, statistics)) over a model honouring the trait contract, N > M+P, dof = N-M-P, the fit was successful, the reported weighted residuals ARE the residual matrix cached in the returned problem, and chi2 = their squared norm / (N-M-P) (c12_e2e).",
         "note": "Trusted: as C01; from_usize is a parameter (ofNat). Defect repaired by fix: commit 7f5ce42.",
     },
     "C13": {
@@ -123,7 +123,7 @@ CLAIMS = {
     "C08": {
         "text": "Kernel-checked (the part that is logic): a weighted basis matrix with a non-finite entry never reaches the SVD and leaves a rejected state (c08_nonfinite_absent); set_params and build do not depend on what the SVD routine does on non-finite matrices, so a routine that loops there is never entered (c08_svd_guard, c08_build_guard); "
                 "the optimizer model is total, never exhausts its fuel and stops after at most max(patience*(P+1),2) evaluations for EVERY behaviour of problem and numerical sub-routines (c08_lm_total, proved by an invariant over LM.run); a problem without residuals makes fit fail with User(residuals) without further model calls (c08_nonfinite_fails); "
-                "the usize subtraction of the statistics cannot panic in either profile (C12 Shape.c12_no_panic); builder-made models cannot hit their two panic sites (C16 c16_args_by_name). Tie: robustness stream in two build profiles under a watchdog.",
+                "the usize subtraction of the statistics cannot panic in either profile (C12 Shape.c12_no_panic); builder-made models cannot hit their two panic sites (C16 c16_args_by_name). Tie: robustness stream in two build profiles under a watchdog. SHAPE / EFFECTS MODEL (Core/ShapeModel.lean, Props/C08Shape.lean): every run-time dimension check of nalgebra (gemm, subtraction, copy_from, ad_mul in solve), varpro's own assert!s (diagonal weights, concat_colwise, extract_range, probability), debug_assert!s and the usize subtraction are transcribed as explicit panic outcomes over matrix SHAPES; for a model whose eval / eval_partial_deriv give output_len x base_function_count and a builder-made problem, set_params, jacobian (any column order), best_fit, try_calculate (both arithmetic profiles, debug assertions on or off, all sizes incl. under-determined, singular or not), the variance accessors and confidence_band_radius with a valid probability never panic (c08_set_params_no_panic, c08_jacobian_no_panic, c08_best_fit_no_panic, c08_try_calculate_no_panic, c08_accessors_no_panic); the only panic is the documented one (c08_band_panic_iff). A contract-violating shape does panic in the model (example), i.e. the checks are really transcribed.",
         "note": "Trusted: as C01/C04. NOT proved (runtime, sampled only): termination of nalgebra's SVD iteration on finite matrices, absence of panics inside nalgebra / levenberg-marquardt / distrs on extreme finite values. Defect repaired by fix: commit 1b6dc44 (SVD on non-finite input never returned).",
     },
     "C05": {
